@@ -385,11 +385,29 @@ func runC14(p *core.Prog, r *core.Report, tier string) {
 						}
 					}
 				}
+				// the clamp written as max(quotient, 1)
+				if mc, ok := mod.Val.(*ssa.Call); ok {
+					if b, isB := mc.Call.Value.(*ssa.Builtin); isB && b.Name() == "max" && len(mc.Call.Args) == 2 {
+						for k := 0; k < 2; k++ {
+							if core.IsIntConst(mc.Call.Args[k], 1) {
+								if q, isQ := mc.Call.Args[1-k].(*ssa.BinOp); isQ && q.Op == token.QUO {
+									clamp = true
+								}
+							}
+						}
+					}
+				}
 				r.Check(clamp, "C14.e", construct+"|clamp", p.Pos(st.Pos()), "modulo is clamped to 1 when the quotient is 0", "the clamp of a zero modulo to 1 is missing (division by zero for small committees): "+mod.String())
 			}
 			// the hashed bytes are those of the signature at the same index
 			hashed := false
-			for _, wc := range core.CallsNamed(f, "Write") {
+			hashCalls := core.CallsNamed(f, "Write")
+			// the one-shot form: sha256.Sum256(bytes)
+			hashCalls = append(hashCalls, core.Calls(f, func(c *ssa.CallCommon) bool {
+				callee := c.StaticCallee()
+				return callee != nil && callee.Pkg != nil && strings.HasPrefix(callee.Pkg.Pkg.Path(), "crypto/") && strings.HasPrefix(callee.Name(), "Sum")
+			})...)
+			for _, wc := range hashCalls {
 				for _, a := range wc.Common().Args {
 					ad := ds.D(a)
 					if ad.Any(func(x *core.VD) bool {
@@ -540,6 +558,11 @@ func runC14(p *core.Prog, r *core.Report, tier string) {
 				return
 			}
 			callee := c.Call.StaticCallee()
+			if callee != nil && callee.Pkg != nil && strings.HasPrefix(callee.Pkg.Pkg.Path(), "crypto/") && strings.HasPrefix(callee.Name(), "Sum") {
+				n++
+				r.Hold("C14.e", core.FnKey(f)+"|hasher-per-signature", p.Pos(c.Pos()), "the one-shot hash function covers exactly the bytes it is given")
+				return
+			}
 			if callee == nil || callee.Pkg == nil || !strings.HasPrefix(callee.Pkg.Pkg.Path(), "crypto/") || callee.Name() != "New" {
 				return
 			}
